@@ -263,6 +263,113 @@ theorem c10_f2c_rows_sum_one (xr : List K) (c0 : K) (cs : List K)
 example : (f2c [(0 : ℚ), 1, 3, 7 / 2] [0, 1 / 2, 3 / 2, 7 / 2]).map List.sum = [1, 1] := by
   norm_num [f2c, mapI, rawI, intervals, foldCorner, foldRow, mergedLengthsI, addRows, ovl, List.getLast?, List.dropLast]
 
+/-! ### conservation through the fold -/
+
+theorem mapI_concat (rf rl : K × K) (rmid : List (K × K)) (C : List (K × K)) :
+    mapI (rf :: (rmid ++ [rl])) C
+      = (rmid.map fun r => (foldRow (C.map fun c => ovl r.1 r.2 c.1 c.2)).map fun v => v / (r.2 - r.1))
+        ++ [(foldRow (addRows (C.map fun c => ovl rl.1 rl.2 c.1 c.2) (C.map fun c => ovl rf.1 rf.2 c.1 c.2))).map
+              fun v => v / ((rl.2 - rl.1) + (rf.2 - rf.1))] := by
+  unfold mapI rawI
+  rw [List.map_cons, List.map_append, List.map_singleton, foldCorner_concat, mergedLengthsI_concat,
+    List.map_append, List.map_singleton, List.map_map, List.zipWith_append (by simp), zipWith_map_map]
+  simp [Function.comp]
+
+def dotL (a b : List K) : K := (List.zipWith (· * ·) a b).sum
+
+theorem dotL_append (a : List K) (u : K) (c : List K) (v : K) (h : a.length = c.length) :
+    dotL (a ++ [u]) (c ++ [v]) = dotL a c + u * v := by
+  unfold dotL
+  rw [List.zipWith_append h]
+  simp
+
+theorem dotL_map_map {A : Type} (l : List A) (f g : A → K) : dotL (l.map f) (l.map g) = (l.map fun a => f a * g a).sum := by
+  unfold dotL; rw [zipWith_map_map]
+
+theorem dotL_div (row : List K) (d : K) (x : List K) : dotL (row.map fun v => v / d) x = dotL row x / d := by
+  unfold dotL
+  induction row generalizing x with
+  | nil => simp
+  | cons a t ih =>
+    cases x with
+    | nil => simp
+    | cons b u =>
+      simp only [List.map_cons, List.zipWith_cons_cons, List.sum_cons]
+      rw [ih u]; ring
+
+theorem dotL_foldRow {A : Type} (cf cl : A) (cmid : List A) (w x : A → K) (hx : x cf = x cl) :
+    dotL (foldRow ((cf :: (cmid ++ [cl])).map w)) ((cmid.map x) ++ [x cl])
+      = ((cf :: (cmid ++ [cl])).map fun c => w c * x c).sum := by
+  have hs : (cf :: (cmid ++ [cl])).map w = w cf :: ((cmid.map w) ++ [w cl]) := by simp
+  rw [hs, foldRow_concat, dotL_append _ _ _ _ (by simp), dotL_map_map]
+  simp only [List.map_cons, List.map_append, List.map_nil, List.sum_cons, List.sum_append, List.sum_nil]
+  rw [hx]; ring
+
+/-- **Conservation through the fold.**  Values `x` on the merged gap cells (one value for the top-corner cell, i.e.
+`x cf = x cl`) are mapped to the merged region cells by the executable `mapI`; the integral over the merged region cells
+(weights `mergedLengthsI R`) equals the integral over the merged gap cells (weights `mergedLengthsI C`) - provided every gap
+interval is tiled by the region intervals (`c10_col_sum` gives this for meshes walking the same perimeter).  The two halves of
+the top corner may differ on either mesh. -/
+theorem c10_fold_conservative (rf rl : K × K) (rmid : List (K × K)) (cf cl : K × K) (cmid : List (K × K))
+    (x : K × K → K) (hx : x cf = x cl)
+    (hcol : ∀ c ∈ cf :: (cmid ++ [cl]),
+      ((rf :: (rmid ++ [rl])).map fun r => ovl r.1 r.2 c.1 c.2).sum = c.2 - c.1)
+    (hpos : ∀ r ∈ rf :: (rmid ++ [rl]), r.1 < r.2) :
+    dotL (mergedLengthsI (rf :: (rmid ++ [rl])))
+        ((mapI (rf :: (rmid ++ [rl])) (cf :: (cmid ++ [cl]))).map fun row => dotL row ((cmid.map x) ++ [x cl]))
+      = dotL (mergedLengthsI (cf :: (cmid ++ [cl]))) ((cmid.map x) ++ [x cl]) := by
+  have hl : rl ∈ rf :: (rmid ++ [rl]) := by simp
+  have hf : rf ∈ rf :: (rmid ++ [rl]) := by simp
+  have hpl : (rl.2 - rl.1) + (rf.2 - rf.1) ≠ 0 := by
+    have h1 := hpos rl hl; have h2 := hpos rf hf
+    exact (by linarith : (0 : K) < (rl.2 - rl.1) + (rf.2 - rf.1)).ne'
+  have hadd : addRows ((cf :: (cmid ++ [cl])).map fun c => ovl rl.1 rl.2 c.1 c.2) ((cf :: (cmid ++ [cl])).map fun c => ovl rf.1 rf.2 c.1 c.2)
+      = (cf :: (cmid ++ [cl])).map fun c => ovl rl.1 rl.2 c.1 c.2 + ovl rf.1 rf.2 c.1 c.2 := by
+    unfold addRows; rw [zipWith_map_map]
+  rw [mapI_concat, mergedLengthsI_concat, List.map_append, List.map_singleton, List.map_map,
+    dotL_append _ _ _ _ (by simp), dotL_map_map]
+  -- middle rows
+  have hmid : (rmid.map fun r => (r.2 - r.1) * ((fun row => dotL row ((cmid.map x) ++ [x cl])) ∘
+        fun r => (foldRow ((cf :: (cmid ++ [cl])).map fun c => ovl r.1 r.2 c.1 c.2)).map fun v => v / (r.2 - r.1)) r)
+      = rmid.map fun r => ((cf :: (cmid ++ [cl])).map fun c => ovl r.1 r.2 c.1 c.2 * x c).sum := by
+    apply List.map_congr_left
+    intro r hr
+    have hp : r.2 - r.1 ≠ 0 := (sub_pos.mpr (hpos r (by simp [hr]))).ne'
+    simp only [Function.comp]
+    rw [dotL_div, dotL_foldRow cf cl cmid (fun c => ovl r.1 r.2 c.1 c.2) x hx]
+    field_simp
+  rw [hmid, dotL_div, hadd, dotL_foldRow cf cl cmid (fun c => ovl rl.1 rl.2 c.1 c.2 + ovl rf.1 rf.2 c.1 c.2) x hx]
+  rw [mul_div_cancel₀ _ hpl]
+  have hsplit : ((cf :: (cmid ++ [cl])).map fun c => (ovl rl.1 rl.2 c.1 c.2 + ovl rf.1 rf.2 c.1 c.2) * x c).sum
+      = ((cf :: (cmid ++ [cl])).map fun c => ovl rl.1 rl.2 c.1 c.2 * x c).sum
+        + ((cf :: (cmid ++ [cl])).map fun c => ovl rf.1 rf.2 c.1 c.2 * x c).sum := by
+    rw [← sum_map_add]
+    congr 1
+    apply List.map_congr_left
+    intro c _
+    ring
+  have hall : (rmid.map fun r => ((cf :: (cmid ++ [cl])).map fun c => ovl r.1 r.2 c.1 c.2 * x c).sum).sum
+        + (((cf :: (cmid ++ [cl])).map fun c => ovl rl.1 rl.2 c.1 c.2 * x c).sum
+          + ((cf :: (cmid ++ [cl])).map fun c => ovl rf.1 rf.2 c.1 c.2 * x c).sum)
+      = ((rf :: (rmid ++ [rl])).map fun r => ((cf :: (cmid ++ [cl])).map fun c => ovl r.1 r.2 c.1 c.2 * x c).sum).sum := by
+    simp only [List.map_cons, List.map_append, List.map_nil, List.sum_cons, List.sum_append, List.sum_nil]
+    ring
+  rw [hsplit, hall, sum_swap]
+  have hcols : ((cf :: (cmid ++ [cl])).map fun c => ((rf :: (rmid ++ [rl])).map fun r => ovl r.1 r.2 c.1 c.2 * x c).sum)
+      = (cf :: (cmid ++ [cl])).map fun c => (c.2 - c.1) * x c := by
+    apply List.map_congr_left
+    intro c hc
+    rw [sum_map_mul_right_k, hcol c hc]
+  rw [hcols, mergedLengthsI_concat, dotL_append _ _ _ _ (by simp), dotL_map_map]
+  simp only [List.map_cons, List.map_append, List.map_nil, List.sum_cons, List.sum_append, List.sum_nil]
+  rw [hx]; ring
+
+/-- non-vacuity on ℚ: the example meshes of above (unequal corner halves), values 5 and 11 on the two merged gap cells -/
+example : dotL (mergedLengthsI (intervals [(0 : ℚ), 1, 3, 7 / 2]))
+      ((f2c [(0 : ℚ), 1, 3, 7 / 2] [0, 1 / 2, 3 / 2, 7 / 2]).map fun row => dotL row [5, 11])
+    = dotL (mergedLengthsI (intervals [(0 : ℚ), 1 / 2, 3 / 2, 7 / 2])) [5, 11] := by
+  norm_num [dotL, f2c, mapI, rawI, intervals, foldCorner, foldRow, mergedLengthsI, addRows, ovl, List.getLast?, List.dropLast]
+
 /-- Non-vacuity / sanity on ℚ. -/
 example : ((intervals [(0 : ℚ), 1, 3, 4]).map fun c => ovl (1 / 2) (7 / 2) c.1 c.2 / (7 / 2 - 1 / 2)).sum = 1 := by
   simp only [intervals, ovl, List.map, List.sum_cons, List.sum_nil]
